@@ -8,7 +8,8 @@
      - the default text arm and the Text `w`: the appended Text holds the consumed bytes (left-trimmed of white space
        after a hard break), its end column is >= its length; when all of them are letters, J of the state before.
    The raw-HTML forms of handle_pointy_brace that take `scanner match + k` bytes (CDATA, declaration, processing
-   instruction) are EXCLUDED by the hypothesis `easy`: behind every `<` there is no `?`, and a `!` only in front of `--`.
+   instruction) enter through the hypothesis `hardok` (what they consume ends in no letter), discharged in
+   InlinesTotal4Main.v: vacuously for contents without these forms, and from valid UTF-8 without NUL (InlinesTotal4Utf8.v).
    No axioms. *)
 From Coq Require Import List NArith ZArith Arith Bool Strings.String Lia.
 From V Require Import Base.Bytes Base.Res Gen.StrLeafGen Gen.Consts Gen.Special Model.Special
@@ -71,9 +72,9 @@ Notation alpha_back := (alpha_back inp).
 Notation colon_ahead := (colon_ahead inp).
 Notation LB := (LB inp).
 
-(* the forms of handle_pointy_brace not treated *)
-Definition easy : Prop := forall p, nth_error inp p = Some x3c -> pointy_easy inp (S p).
-Hypothesis Heasy : easy.
+(* the forms of handle_pointy_brace that take `scanner match + k` bytes: what is needed of them *)
+Definition hardok : Prop := forall p, nth_error inp p = Some x3c -> pointy_hard_ok inp (S p).
+Hypothesis Hhard : hardok.
 
 Definition J (s : st) : Prop := colon_ahead (pos s) = true -> spelled (sibs s) (alpha_back (pos s)).
 
@@ -209,7 +210,7 @@ Proof.
   destruct (beqb c x5c) eqn:E5c; [apply beqb_eq in E5c; subst c; armLB last_backslash|].
   destruct (beqb c x26) eqn:E26; [apply beqb_eq in E26; subst c; armLB last_entity|].
   destruct (beqb c x3c) eqn:E3c.
-  { apply beqb_eq in E3c; subst c. pose proof (Heasy _ Ec) as Hx. armLB last_pointy. }
+  { apply beqb_eq in E3c; subst c. pose proof (Hhard _ Ec) as Hx. armLB last_pointy. }
   assert (forall b, sl_isalpha b = false -> nth_error inp (pos s1) = Some b -> text1 s1 b = Ok (Some s') -> J s') as Htext.
   { intros b Hb Eb Ht. unfold text1, append in Ht.
     destruct (mk (set_pos s1 (S (pos s1))) (Text [b]) (pos s1) (pos s1)) as [n| |]; cbn [bind] in Ht; try discriminate. inversion Ht; subst.
@@ -338,7 +339,7 @@ Proof.
 Qed.
 
 (* ------------------------------------------------------------------ totality *)
-Theorem inlines_total_easy rs0 :
+Theorem inlines_total_hardok rs0 :
   line_endings inp < List.length lo -> (rs0 <= maxref)%N ->
   exists ch rs, parse_inlines memo o u inp lo start_line refmap maxref rs0 = Ok (ch, rs).
 Proof.
